@@ -501,10 +501,28 @@ fn run_history<Q: QueueBackend + 'static>(rng: &mut Rng, ctx: &mut Ctx, focus: F
                 trace.push(format!("[dev {:?} toggle twice]", which));
             }
         }
-        // one message of 1..4 units
+        // one message of 1..4 units; now and then a flood of failing messages to fill the queue far beyond any small counter
         let mu = if rng.chance(1, 4) { 4 } else { 2 };
         let nun = 1 + rng.usize(mu);
-        let units: Vec<U> = (0..nun).map(|_| gen_unit(rng, focus)).collect();
+        let flood = step == 2 && !ctx.cfg.tiny && rng.chance(1, 40);
+        let units: Vec<U> = if flood { vec![U::Fail(rng.usize(fail_table().len()))] } else { (0..nun).map(|_| gen_unit(rng, focus)).collect() };
+        if flood {
+            ctx.count("histories.with-error-flood(300)");
+            for _ in 0..300 {
+                let k = rng.usize(fail_table().len());
+                let e = fail_table()[k];
+                let msg = format!(":TEST:FAIL {}", k);
+                let mut c = Context::default();
+                let mut resp: Vec<u8> = Vec::new();
+                let r = tree.run(msg.as_bytes(), &mut dev, &mut c, &mut resp);
+                if r != Err(e) {
+                    ctx.violation(&format!("{}:wrong-error-returned:handler-error", p), jobj(&[("message", jstr(&msg)), ("result", jstr(&format!("{:?}", r)))]));
+                    return;
+                }
+                m.record_error(item_of(&e));
+            }
+            trace.push("[300 x :TEST:FAIL n]".into());
+        }
         let mut msg: Vec<u8> = vec![];
         for (i, u) in units.iter().enumerate() {
             if i > 0 {
